@@ -54,6 +54,27 @@ def run(ctx) -> None:
     stats = asmfam.judge(ctx, progs, res, "c02.trace", keyfn, "TraceAsm judging labels and images")
     ctx.evaluations += len(progs)
 
+    # per-node addresses of the label pass vs emission through the documented NodeProtocol (observe_at),
+    # on the seeded programs and a sample of the enumerated ones
+    from harness.pool import Pool
+    from harness import tlc
+    sample = progs[-n:] + progs[: (3000 if ctx.quick else 60000)]
+    nres = Pool().map("asm_prog_nodes", [{"prog": p} for p in sample], timeout=30)
+    nrecs = []
+    for k, (p, o) in enumerate(zip(sample, nres)):
+        if o.get("hang") or o.get("driver_error") or o.get("crash"):
+            continue
+        decls = [s_["decl"] for s_ in p["body"] if s_["k"] == "map"]
+        nrecs.append({"id": str(k), "ok": o["ok"], "nodes": o["nodes"], "rom": p["rom"], "decls": decls})
+    nrej, nst, ngen = tlc.judge_traces("TraceC02N", nrecs, tag="c02.nodes", nshards=16)
+    ctx.add_states(nst, ngen, "TraceC02N: per-node label-pass address/size vs emission")
+    ctx.traces += len(nrecs)
+    ctx.extra["node_traces"] = {"programs": len(nrecs), "nodes": sum(len(r["nodes"]) for r in nrecs)}
+    for rj in nrej:
+        p = sample[int(rj["id"])]
+        ctx.violation("nodes/" + keyfn(p, "size", ""), "size given in the label pass differs from the bytes emitted: " + rj["clause"],
+                      {"prog": p, "clause": rj["clause"]})
+
     def nontrivial(p):
         flat = []
         def walk(ss):
